@@ -93,10 +93,24 @@ func binopSignatureCollision(c *Case) bool {
 		if b.LHS.Type() != parser.ValueTypeVector || b.RHS.Type() != parser.ValueTypeVector || b.VectorMatching == nil {
 			return nil
 		}
-		for _, side := range []parser.Expr{b.LHS, b.RHS} {
+		// The engine joins at the level of series (everything the storage
+		// returns for the selectors), the reference at the level of samples: a
+		// series without a sample in the window still takes part in the engine's
+		// join table. Evaluate each side with the configured lookback and with a
+		// lookback that covers all the data.
+		for i := 0; i < 4; i++ {
+			side := []parser.Expr{b.LHS, b.RHS}[i%2]
 			var qo *promql.QueryOpts
 			if cfg.QueryLookback != 0 {
 				qo = &promql.QueryOpts{LookbackDelta: cfg.QueryLookback}
+			}
+			if i >= 2 {
+				// what differs for a collision no sample shows is which one-side
+				// series the included labels are copied from
+				if len(b.VectorMatching.Include) == 0 {
+					continue
+				}
+				qo = &promql.QueryOpts{LookbackDelta: 100 * time.Hour}
 			}
 			w := c.Window
 			step := time.Duration(w.Step) * time.Millisecond
@@ -162,10 +176,65 @@ func classifyRefFailure(c *Case, impl, ref Canon) []string {
 	}
 	// only for explicitly overflowing magnitudes (a literal of the order 1e300 in the query)
 	if (strings.Contains(c.Query, "stddev") || strings.Contains(c.Query, "stdvar") || strings.Contains(c.Query, "avg")) &&
-		strings.Contains(c.Query, "1e30") && (hasNonFinite(impl) || hasNonFinite(ref)) {
+		(strings.Contains(c.Query, "1e30") || overflowingOperand(c)) && (hasNonFinite(impl) || hasNonFinite(ref)) {
 		tags = append(tags, "overflow-in-mean-or-variance")
 	}
 	return tags
+}
+
+// overflowingOperand reports whether some avg/stddev/stdvar of the query has,
+// in its operand as evaluated by the reference engine, a finite value whose
+// square (stddev, stdvar) or whose sum with a few like it (avg) overflows float64.
+func overflowingOperand(c *Case) bool {
+	expr, err := parser.ParseExpr(c.Query)
+	if err != nil {
+		return false
+	}
+	st := NewStore(c.Data)
+	cfg := c.Cfg()
+	ref := promql.NewEngine(promOpts(cfg))
+	found := false
+	parser.Inspect(expr, func(n parser.Node, _ []parser.Node) error {
+		a, ok := n.(*parser.AggregateExpr)
+		if !ok || found || (a.Op != parser.AVG && a.Op != parser.STDDEV && a.Op != parser.STDVAR) {
+			return nil
+		}
+		limit := 1e150
+		if a.Op == parser.AVG {
+			limit = 1e300
+		}
+		var qo *promql.QueryOpts
+		if cfg.QueryLookback != 0 {
+			qo = &promql.QueryOpts{LookbackDelta: cfg.QueryLookback}
+		}
+		w := c.Window
+		step, end := time.Duration(w.Step)*time.Millisecond, w.End
+		if w.Instant() {
+			step, end = time.Second, w.Start
+		}
+		q, err := ref.NewRangeQuery(st, qo, a.Expr.String(), time.UnixMilli(w.Start), time.UnixMilli(end), step)
+		if err != nil {
+			return nil
+		}
+		defer q.Close()
+		r := q.Exec(context.Background())
+		if r.Err != nil {
+			return nil
+		}
+		m, ok := r.Value.(promql.Matrix)
+		if !ok {
+			return nil
+		}
+		for _, s := range m {
+			for _, p := range s.Points {
+				if !math.IsInf(p.V, 0) && math.Abs(p.V) >= limit {
+					found = true
+				}
+			}
+		}
+		return nil
+	})
+	return found
 }
 
 func hasNonFinite(c Canon) bool {
